@@ -292,3 +292,22 @@ namespace tc {
         if (char const* t = getenv("VH_TABLE")) table = t;
     }
 }
+
+
+// capacities of wide integer types over a sweep of digit counts (compile-time constants of the headers)
+template<int D>
+void wide_cap_one(char const* table)
+{
+    printf("%s capw %d s => %d\n", table, D, int(cnl::_impl::to_chars_capacity<cnl::wide_integer<D, int>>{}()));
+    printf("%s capw %d u => %d\n", table, D, int(cnl::_impl::to_chars_capacity<cnl::wide_integer<D, unsigned>>{}()));
+}
+template<int Lo, int... Is>
+void wide_caps_seq(char const* table, std::integer_sequence<int, Is...>)
+{
+    (wide_cap_one<Lo + Is>(table), ...);
+}
+template<int Lo, int N>
+void wide_caps(char const* table)
+{
+    wide_caps_seq<Lo>(table, std::make_integer_sequence<int, N>{});
+}
